@@ -193,7 +193,7 @@ func runStr(c *lib.Ctx, cs caseT) {
 	default:
 		c.Count("result_ok")
 	}
-	id := c.Case(lib.CoqTuple(fmt.Sprint(cs.Op), lib.CoqBytes(s), o.coq()), cs, key)
+	id := c.Case("C32.CStr "+fmt.Sprint(cs.Op)+" "+lib.CoqBytes(s)+" "+o.coq(), cs, key)
 	c.PredChecked()
 	what := func(f string, a ...interface{}) string { return fmt.Sprintf("%s(%q): ", opNames[cs.Op], s) + fmt.Sprintf(f, a...) }
 	if o.panic != "" {
@@ -711,6 +711,280 @@ func runSQL(c *lib.Ctx, cs caseT) {
 	}
 }
 
+// ---------- documents tied to the Coq model (integers and strings only) ----------
+var mKeys = []string{"a", "b", "c", "aa", "ab", "ba", "k1", "k10", "k2", "x y", "é", "B", "zz", "abc"}
+var mStrs = []string{"", "a", "abc", "hello world", "é", "日本", "A", "10", "true", "q\"uote", "back\\slash", "line\nbreak", "tab\t", "a/b", "<&>", "\x7f", "😀", "\x01"}
+var mInts = []string{"0", "1", "-1", "42", "-17", "1000000", "9007199254740991", "-9007199254740991", "9007199254740993", "-9007199254740993",
+	"9223372036854775807", "-9223372036854775808", "9223372036854775808", "18446744073709551615", "123456789012"}
+
+func genMDoc(r *lib.RNG, depth int) doc {
+	k := r.Intn(10)
+	if depth <= 0 && k >= 6 {
+		k = r.Intn(6)
+	}
+	switch {
+	case k < 2:
+		if r.Chance(1, 3) {
+			return json.Number(fmt.Sprint(r.Range(-50, 50)))
+		}
+		return json.Number(lib.Pick(r, mInts))
+	case k < 4:
+		return lib.Pick(r, mStrs)
+	case k == 4:
+		return r.Bool()
+	case k == 5:
+		return nil
+	case k < 8:
+		n := r.Intn(4)
+		a := make([]doc, n)
+		for i := range a {
+			a[i] = genMDoc(r, depth-1)
+		}
+		return a
+	default:
+		n := r.Intn(5)
+		var o obj
+		seen := map[string]bool{}
+		for i := 0; i < n; i++ {
+			key := lib.Pick(r, mKeys)
+			if seen[key] {
+				continue
+			}
+			seen[key] = true
+			if r.Chance(1, 5) {
+				o = append(o, kv{key, nil})
+				continue
+			}
+			o = append(o, kv{key, genMDoc(r, depth-1)})
+		}
+		return o
+	}
+}
+
+func coqDoc(d doc) string {
+	switch v := d.(type) {
+	case nil:
+		return "JNull"
+	case bool:
+		return "(JBool " + lib.CoqBool(v) + ")"
+	case json.Number:
+		return "(JInt " + lib.CoqZStr(string(v)) + ")"
+	case string:
+		return "(JStr " + lib.CoqStr(v) + ")"
+	case []doc:
+		return "(JArr " + lib.CoqListOf(v, coqDoc) + ")"
+	case obj:
+		return "(JObj " + lib.CoqListOf(v, func(x kv) string { return "(" + lib.CoqStr(x.k) + ", " + coqDoc(x.v) + ")" }) + ")"
+	}
+	return "JNull"
+}
+
+type mleg struct {
+	key   string
+	idx   int
+	isKey bool
+}
+
+func legsText(ls []mleg) string {
+	var sb strings.Builder
+	sb.WriteString("$")
+	for _, l := range ls {
+		if l.isKey {
+			sb.WriteString(`."` + l.key + `"`)
+		} else {
+			fmt.Fprintf(&sb, "[%d]", l.idx)
+		}
+	}
+	return sb.String()
+}
+func legsCoq(ls []mleg) string {
+	return lib.CoqListOf(ls, func(l mleg) string {
+		if l.isKey {
+			return "LKey " + lib.CoqStr(l.key)
+		}
+		return fmt.Sprintf("LIdx %d", l.idx)
+	})
+}
+
+// genLegs: mostly a path that exists in d, then possibly perturbed: extended by a new key / index, index past the
+// end, a key leg on an array or an index leg on an object or scalar
+func genLegs(r *lib.RNG, d doc) []mleg {
+	var ls []mleg
+	cur := d
+	for depth := 0; depth < 5; depth++ {
+		switch v := cur.(type) {
+		case []doc:
+			if len(v) == 0 || r.Chance(1, 6) {
+				goto done
+			}
+			i := r.Intn(len(v))
+			ls = append(ls, mleg{idx: i})
+			cur = v[i]
+		case obj:
+			if len(v) == 0 || r.Chance(1, 6) {
+				goto done
+			}
+			x := v[r.Intn(len(v))]
+			ls = append(ls, mleg{key: x.k, isKey: true})
+			cur = x.v
+		default:
+			goto done
+		}
+	}
+done:
+	switch r.Intn(8) {
+	case 0:
+		ls = append(ls, mleg{key: lib.Pick(r, mKeys), isKey: true})
+	case 1:
+		ls = append(ls, mleg{idx: r.Intn(4)})
+	case 2:
+		ls = append(ls, mleg{idx: r.Intn(3)}, mleg{key: lib.Pick(r, mKeys), isKey: true})
+	case 3:
+		ls = append(ls, mleg{key: lib.Pick(r, mKeys), isKey: true}, mleg{idx: r.Intn(2)})
+	}
+	if len(ls) == 0 {
+		ls = append(ls, mleg{key: lib.Pick(r, mKeys), isKey: true})
+	}
+	return ls
+}
+
+type jcase struct {
+	Kind string `json:"kind"`
+	Sub  string `json:"sub"` // print | cmp | path
+	Op   int    `json:"op"`
+	D    string `json:"d"`
+	D2   string `json:"d2,omitempty"`
+	Path string `json:"path,omitempty"`
+	Coq  string `json:"coq"`
+}
+
+var pathFns = []string{"JSON_EXTRACT", "JSON_CONTAINS_PATH", "JSON_SET", "JSON_INSERT", "JSON_REPLACE", "JSON_REMOVE", "JSON_ARRAY_APPEND"}
+
+func genModelCase(r *lib.RNG) jcase {
+	d := genMDoc(r, 3)
+	switch r.Intn(4) {
+	case 0:
+		return jcase{Kind: "jdoc", Sub: "print", D: text(shuffled(r, d)), Coq: coqDoc(d)}
+	case 1:
+		var e doc
+		switch r.Intn(3) {
+		case 0:
+			e = genMDoc(r, 2)
+		case 1:
+			e = shuffled(r, d)
+		default: // a near copy: same shape, one scalar replaced
+			e = mutateDoc(r, d)
+		}
+		return jcase{Kind: "jdoc", Sub: "cmp", D: text(d), D2: text(e), Coq: coqDoc(d) + " " + coqDoc(e)}
+	default:
+		ls := genLegs(r, d)
+		v := genMDoc(r, 1)
+		op := r.Intn(len(pathFns))
+		return jcase{Kind: "jdoc", Sub: "path", Op: op, D: text(d), D2: text(v), Path: legsText(ls), Coq: coqDoc(d) + " " + legsCoq(ls) + " " + coqDoc(v)}
+	}
+}
+
+func mutateDoc(r *lib.RNG, d doc) doc {
+	switch v := d.(type) {
+	case []doc:
+		if len(v) == 0 {
+			return []doc{genMDoc(r, 0)}
+		}
+		a := append([]doc{}, v...)
+		i := r.Intn(len(a))
+		if r.Chance(1, 4) {
+			return a[:i]
+		}
+		a[i] = mutateDoc(r, a[i])
+		return a
+	case obj:
+		if len(v) == 0 {
+			return obj{{lib.Pick(r, mKeys), genMDoc(r, 0)}}
+		}
+		o := append(obj{}, v...)
+		i := r.Intn(len(o))
+		if r.Chance(1, 4) {
+			return append(o[:i:i], o[i+1:]...)
+		}
+		o[i] = kv{o[i].k, mutateDoc(r, o[i].v)}
+		return o
+	default:
+		return genMDoc(r, 0)
+	}
+}
+
+func runModelCase(c *lib.Ctx, cs jcase) {
+	c.Count("model_" + cs.Sub)
+	cj := func(x string) string { return "CAST(" + sqlLit(x) + " AS JSON)" }
+	key := "jdoc|" + cs.Sub + "|" + fmt.Sprint(cs.Op) + "|" + cs.D + "|" + cs.D2 + "|" + cs.Path
+	skip := func(why string) {
+		c.Count("model_skipped_" + why)
+		c.CaseNoModel(cs, "")
+	}
+	switch cs.Sub {
+	case "print":
+		v, null, res := q1("SELECT CAST(" + cj(cs.D) + " AS CHAR)")
+		if res.Err != nil || res.Panic != "" || null {
+			skip("print-error")
+			return
+		}
+		c.Case("C32.CPrint "+cs.Coq+" "+lib.CoqStr(v), cs, key)
+	case "cmp":
+		sign := 2
+		for i, op := range []string{"<", "=", ">"} {
+			v, null, res := q1("SELECT " + cj(cs.D) + " " + op + " " + cj(cs.D2))
+			if res.Err != nil || res.Panic != "" || null {
+				skip("cmp-null-or-error")
+				return
+			}
+			if v == "1" || v == "true" {
+				if sign != 2 {
+					skip("cmp-not-trichotomous")
+					return
+				}
+				sign = i - 1
+			}
+		}
+		if sign == 2 {
+			skip("cmp-not-trichotomous")
+			return
+		}
+		c.Case("C32.CCmp "+cs.Coq+" ("+lib.CoqZ(int64(sign))+")", cs, key)
+	case "path":
+		var sql string
+		switch cs.Op {
+		case 0:
+			sql = "SELECT CAST(JSON_EXTRACT(" + sqlLit(cs.D) + ", " + sqlLit(cs.Path) + ") AS CHAR)"
+		case 1:
+			sql = "SELECT JSON_CONTAINS_PATH(" + sqlLit(cs.D) + ", 'one', " + sqlLit(cs.Path) + ")"
+		case 5:
+			sql = "SELECT CAST(JSON_REMOVE(" + sqlLit(cs.D) + ", " + sqlLit(cs.Path) + ") AS CHAR)"
+		default:
+			sql = "SELECT CAST(" + pathFns[cs.Op] + "(" + sqlLit(cs.D) + ", " + sqlLit(cs.Path) + ", " + cj(cs.D2) + ") AS CHAR)"
+		}
+		v, null, res := q1(sql)
+		if res.Panic != "" {
+			id := c.CaseNoModel(cs, key)
+			c.PredFail(id, "sql/panic/path-function", sql+" panics: "+res.Panic, cs)
+			return
+		}
+		if res.Err != nil {
+			skip("path-error")
+			return
+		}
+		obs := "None"
+		if !null {
+			if cs.Op == 1 && v == "true" {
+				v = "1"
+			} else if cs.Op == 1 && v == "false" {
+				v = "0"
+			}
+			obs = "(Some " + lib.CoqStr(v) + ")"
+		}
+		c.Case(fmt.Sprintf("C32.CPath %d %s %s", cs.Op, cs.Coq, obs), cs, key)
+	}
+}
+
 func runCase(c *lib.Ctx, cs caseT) {
 	if cs.Kind == "sql" {
 		runSQL(c, cs)
@@ -721,7 +995,7 @@ func runCase(c *lib.Ctx, cs caseT) {
 
 func main() {
 	lib.Main("C32", func(c *lib.Ctx) {
-		c.Header = "From Coq Require Import List NArith.\nImport ListNotations.\nFrom GMS Require Import Codec.JsonQuote Corr.C32.\nOpen Scope N_scope."
+		c.Header = "From Coq Require Import List NArith ZArith.\nImport ListNotations.\nFrom GMS Require Import Codec.JsonQuote Codec.C32Json Corr.C32.\nOpen Scope N_scope."
 		c.CaseType = "C32.case"
 		c.MismatchFn = "C32.mismatches"
 		c.SetRule("2/3 string cases for the model: Quote on 0-8 (1/15: 9-40) symbols from an alphabet with controls, quote, backslash, DEL, " +
@@ -733,6 +1007,12 @@ func main() {
 		if c.ReplayFile != "" {
 			var cs caseT
 			lib.LoadReplay(c.ReplayFile, &cs)
+			if cs.Kind == "jdoc" {
+				var jc jcase
+				lib.LoadReplay(c.ReplayFile, &jc)
+				runModelCase(c, jc)
+				return
+			}
 			runCase(c, cs)
 			return
 		}
@@ -778,6 +1058,10 @@ func main() {
 			r := c.R.Fork()
 			if r.Intn(3) == 0 {
 				runCase(c, genSQL(r))
+				continue
+			}
+			if r.Intn(2) == 0 {
+				runModelCase(c, genModelCase(r))
 				continue
 			}
 			var cs caseT
